@@ -4,6 +4,7 @@ import (
 	"go/ast"
 	"go/token"
 	"strconv"
+	"strings"
 )
 
 func collect(repo string, f *facts) {
@@ -12,6 +13,63 @@ func collect(repo string, f *facts) {
 	paramFacts(f)
 	parseFacts(f)
 	frameFacts(f)
+	routeFacts(f)
+}
+
+// mergeLoopLengthPrefixed: in the given function, the `for _, tkey := range tempKeys` loop appends a length prefix
+// (binary.AppendUvarint(…, uint64(len(tkey)))) before appending the key bytes.
+func mergeLoopLengthPrefixed(fd *ast.FuncDecl) *bool {
+	if fd == nil {
+		return nil
+	}
+	var res *bool
+	inspect(fd.Body, func(n ast.Node) bool {
+		rs, ok := n.(*ast.RangeStmt)
+		if !ok || src(rs.X) != "tempKeys" {
+			return true
+		}
+		prefixAt, appendAt := -1, -1
+		for i, st := range rs.Body.List {
+			t := src(st)
+			if strings.Contains(t, "binary.AppendUvarint(tempMergedKey, uint64(len(tkey)))") && prefixAt < 0 {
+				prefixAt = i
+			}
+			if strings.Contains(t, "append(tempMergedKey, tkey...)") && appendAt < 0 {
+				appendAt = i
+			}
+		}
+		res = bp(prefixAt >= 0 && appendAt > prefixAt)
+		return true
+	})
+	return res
+}
+
+// ---- C06: routing ----
+func routeFacts(f *facts) {
+	f.note["route_merge_length_prefixed"] = "localcachedmap.go GetOrCreate: each key value is appended after its uvarint length"
+	f.bool["route_merge_length_prefixed"] = mergeLoopLengthPrefixed(fn("util/localcachedmap/localcachedmap.go", "GetOrCreate", ""))
+	f.note["route_metric_merge_length_prefixed"] = "logprocesscounterset.go SelectMetricKeySet: each key value is appended after its uvarint length"
+	f.bool["route_metric_merge_length_prefixed"] = mergeLoopLengthPrefixed(fn("base/logprocesscounterset.go", "SelectMetricKeySet", ""))
+	f.note["route_id_uses_join_split"] = "orchestrator.go: newPipeline builds the worker id with joinPipelineID(keys) and NewOrchestrator splits recovered ids with splitPipelineID"
+	f.bool["route_id_uses_join_split"] = nil
+	np := fn("orchestrate/obykeyset/orchestrator.go", "newPipeline", "byKeySetOrchestrator")
+	no := fn("orchestrate/obykeyset/orchestrator.go", "NewOrchestrator", "")
+	if np != nil && no != nil {
+		j := contains(np.Body, func(n ast.Node) bool {
+			as, ok := n.(*ast.AssignStmt)
+			return ok && len(as.Lhs) == 1 && src(as.Lhs[0]) == "workerID" && src(as.Rhs[0]) == "joinPipelineID(keys)"
+		})
+		sp := contains(no.Body, func(n ast.Node) bool {
+			as, ok := n.(*ast.AssignStmt)
+			return ok && len(as.Lhs) == 1 && src(as.Lhs[0]) == "keys" && src(as.Rhs[0]) == "splitPipelineID(pipelineID)"
+		})
+		f.bool["route_id_uses_join_split"] = bp(j && sp)
+	}
+	f.note["route_dir_hash_length"] = "queuedirs.go queueDirHashLength"
+	f.nat["route_dir_hash_length"] = nil
+	if v, ok := evalInt("buffer/hybridbuffer/queuedirs.go", pkgValue("buffer/hybridbuffer/queuedirs.go", "queueDirHashLength"), 0); ok {
+		f.nat["route_dir_hash_length"] = ip(v)
+	}
 }
 
 // ---- C08: input/tcplistener ----
